@@ -272,18 +272,40 @@ Section Cmp.
     exists gs,
       Permutation gs (dkeys (sort_keyf ks) inp)           (* every group exactly once *)
       /\ out = sort_output ks inp gs                        (* groups contiguous, each in input order; key-less records last, in input order *)
-      /\ ForallOrdPairs (fun g h => less infer nat_less (map snd ks) (head_vals ks inp h) (head_vals ks inp g) = false) gs.
+      /\ ForallOrdPairs (fun g h => less infer nat_less (map snd ks) (head_vals ks inp h) (head_vals ks inp g) = false) gs
+      (* stable: groups whose heads compare equal under the flag chain are in first-appearance order *)
+      /\ ForallOrdPairs (fun g h => chain_cmp infer nat_less (map snd ks) (head_vals ks inp g) (head_vals ks inp h) = 0 ->
+                                    (index_of g (dkeys (sort_keyf ks) inp) < index_of h (dkeys (sort_keyf ks) inp))%nat) gs.
+
+  Lemma stable_by_spec eqv pos l :
+    stable_by eqv pos l = true <-> ForallOrdPairs (fun x y => eqv x y = true -> (pos x < pos y)%nat) l.
+  Proof.
+    induction l as [|x t IH]; cbn [stable_by].
+    - split; [constructor|reflexivity].
+    - rewrite andb_true_iff, forallb_forall, IH. split.
+      + intros [H1 H2]. constructor; [|assumption]. apply Forall_forall. intros y Hy He. specialize (H1 y Hy).
+        rewrite He in H1. cbn in H1. now apply Nat.ltb_lt.
+      + intros H. inversion H as [|? ? H1 H2]; subst. split; [|assumption].
+        intros y Hy. rewrite Forall_forall in H1. destruct (eqv x y) eqn:E; [|reflexivity]. cbn. apply Nat.ltb_lt. auto.
+  Qed.
+  Lemma FOP_impl {A} (P Q : A -> A -> Prop) l : (forall x y, P x y -> Q x y) -> ForallOrdPairs P l -> ForallOrdPairs Q l.
+  Proof.
+    intros H. induction 1 as [|x t Hx Ht IH]; constructor; [|assumption].
+    eapply Forall_impl; [|exact Hx]. auto.
+  Qed.
 
   Lemma check_sort_sound ks inp out : check_sort infer nat_less ks inp out = true -> sort_spec ks inp out.
   Proof.
-    unfold check_sort. cbn zeta. rewrite !andb_true_iff. intros [[[H1 H2] H3] H4].
-    exists (dkeys (sort_keyf ks) out). split; [|split].
+    unfold check_sort. cbn zeta. rewrite !andb_true_iff. intros [[[[H1 H2] H3] H4] H5].
+    exists (dkeys (sort_keyf ks) out). split; [|split; [|split]].
     - symmetry. apply NoDup_Permutation_bis.
       + apply dkeys_NoDup.
       + apply Nat.eqb_eq in H2. lia.
       + intros g Hg. rewrite forallb_forall in H3. apply mem_In. auto.
     - destruct (records_eqb_spec out (sort_output ks inp (dkeys (sort_keyf ks) out))); congruence.
     - now apply ordered_by_spec.
+    - unfold check_stable in H5. cbn zeta in H5. apply stable_by_spec in H5.
+      eapply FOP_impl; [|exact H5]. cbn beta. intros x y H E. apply H. now apply Z.eqb_eq.
   Qed.
 
   (* completeness: every output allowed by the specification is accepted by the checker *)
@@ -319,7 +341,7 @@ Section Cmp.
 
   Lemma check_sort_complete ks inp out : sort_spec ks inp out -> check_sort infer nat_less ks inp out = true.
   Proof.
-    intros (gs & Hp & -> & Ho). unfold check_sort. cbn zeta.
+    intros (gs & Hp & -> & Ho & Hs). unfold check_sort. cbn zeta.
     assert (Hnd : NoDup gs) by (eapply Permutation_NoDup; [symmetry; exact Hp|apply dkeys_NoDup]).
     assert (Hd : dkeys (sort_keyf ks) (sort_output ks inp gs) = gs).
     { unfold sort_output. apply dkeys_flat_groups; [assumption| |].
@@ -331,10 +353,20 @@ Section Cmp.
     - apply Nat.eqb_eq. now apply Permutation_length.
     - apply forallb_forall. intros g Hg. apply mem_In. eapply Permutation_in; [symmetry; exact Hp|exact Hg].
     - now apply ordered_by_spec.
+    - unfold check_stable. cbn zeta. rewrite Hd. apply stable_by_spec.
+      eapply FOP_impl; [|exact Hs]. cbn beta. intros x y H E. apply H. now apply Z.eqb_eq.
   Qed.
 
   Lemma sort_spec_permutation ks inp out : sort_spec ks inp out -> Permutation out inp.
   Proof. intros (gs & Hp & -> & _). now apply sort_output_perm. Qed.
+
+  (* the stability clause in terms of the output: if the heads of two groups compare equal under the whole flag chain,
+     the group seen first in the input is emitted first *)
+  Lemma sort_spec_stable ks inp out : sort_spec ks inp out ->
+    exists gs, out = sort_output ks inp gs
+      /\ ForallOrdPairs (fun g h => chain_cmp infer nat_less (map snd ks) (head_vals ks inp g) (head_vals ks inp h) = 0 ->
+                                    (index_of g (dkeys (sort_keyf ks) inp) < index_of h (dkeys (sort_keyf ks) inp))%nat) gs.
+  Proof. intros (gs & _ & Ho & _ & Hs). exists gs. auto. Qed.
 
   (* records with the same key text stay together and keep their input order; key-less records come last *)
   Lemma sort_spec_groups ks inp out : sort_spec ks inp out ->
@@ -349,6 +381,35 @@ Section Cmp.
     rewrite group_of_flat_groups by assumption.
     destruct (mem g gs) eqn:Em; [reflexivity|]. symmetry. apply dkeys_complete.
     intros Hd. apply (Permutation_in _ (Permutation_sym Hp)) in Hd. apply mem_In in Hd. congruence.
+  Qed.
+
+  Definition top_group_spec (domax : bool) (k : Z) (x : bytes) (G O : list record) : Prop :=
+    exists rest, Permutation G (O ++ rest)
+      /\ Z.of_nat (List.length O) = Z.min k (Z.of_nat (List.length G))
+      /\ ForallOrdPairs (fun r s => top_cmp infer domax x s r <= 0) O
+      /\ (forall r o, In r rest -> In o O -> top_cmp infer domax x r o <= 0).
+
+  Lemma check_top_group_sound domax k x G O : check_top_group infer domax k x G O = true -> top_group_spec domax k x G O.
+  Proof.
+    unfold check_top_group. destruct (msub O G) as [rest|] eqn:E; [|discriminate].
+    rewrite !andb_true_iff. intros [[H1 H2] H3]. exists rest. split; [now apply C11.CheckerProofs.msub_sound|].
+    split; [now apply Z.eqb_eq|]. split.
+    - apply ordered_by_spec in H2. eapply FOP_impl; [|exact H2]. cbn beta. intros r s H. apply Z.ltb_ge. exact H.
+    - intros r o Hr Ho. rewrite forallb_forall in H3. specialize (H3 r Hr). rewrite forallb_forall in H3.
+      specialize (H3 o Ho). rewrite negb_true_iff in H3. now apply Z.ltb_ge.
+  Qed.
+
+  (* what acceptance of a `top -a` output means *)
+  Lemma check_top_sound domax k x fs inp out : check_top infer domax k x fs inp out = true ->
+    let keyf := top_keyf x fs in
+    out = flat_map (fun g => group_of keyf g out) (dkeys keyf inp)
+    /\ (forall r, In r out -> has_key keyf r = true)
+    /\ (forall g, In g (dkeys keyf inp) -> top_group_spec domax k x (group_of keyf g inp) (group_of keyf g out)).
+  Proof.
+    unfold check_top. cbn zeta. rewrite !andb_true_iff. intros [[H1 H2] H3]. split; [|split].
+    - destruct (records_eqb_spec out (flat_map (fun g => group_of (top_keyf x fs) g out) (dkeys (top_keyf x fs) inp))); congruence.
+    - now apply forallb_forall.
+    - intros g Hg. rewrite forallb_forall in H3. apply check_top_group_sound. auto.
   Qed.
 
   Lemma check_array_sort_spec name f inp out :
